@@ -337,6 +337,11 @@ func c14BlameSite(txt *c14Text, s *c14Site, parseErr bool) (sig, what string) {
 		if txt.Feats["between"] {
 			f = "between-then-operator"
 		}
+		if c14CollateAfterNulltest(c14Sig(c14Lex(txt.original()))) {
+			// probed: rqlite/sql rejects COLLATE directly after IS [NOT] NULL / ISNULL / NOTNULL / NOT NULL
+			// ("expected semicolon or EOF, found 'COLLATE'"); every other continuation after a null test parses
+			f = "collate-after-nulltest"
+		}
 		if txt.Feats["digit-sep"] {
 			f = "digit-separator"
 		}
@@ -390,6 +395,12 @@ func c14BlameUnfaithful(txt *c14Text) string {
 		if txt.Feats[h] {
 			return "C14/parser-gap{form=serialize:" + h + "}"
 		}
+	}
+	if c14NulltestThenOperator(c14Sig(c14Lex(txt.original()))) {
+		// `0 IS NOT NULL & 6` is `0 IS NOT (NULL & 6)` in SQLite; rqlite/sql reads a null test and prints
+		// `0 NOT NULL & 6`, which SQLite reads as `(0 NOT NULL) & 6`. Likewise `x ISNULL + 1` is printed
+		// `x IS NULL + 1`, i.e. `x IS (NULL + 1)`.
+		return "C14/parser-gap{form=serialize:nulltest-then-operator}"
 	}
 	for _, s := range txt.Sites {
 		if s.Covered {
@@ -743,4 +754,43 @@ func c14CheckText(rt *rapid.T, rec *vstat.Rec, txt *c14Text, s, r string, t0, t1
 	}
 	rec.Label("outcome:rewritten-ok")
 	return true
+}
+
+// c14CollateAfterNulltest recognises a null test (IS NULL, IS NOT NULL, NOT NULL, ISNULL, NOTNULL)
+// immediately followed by COLLATE, e.g. `x IS NOT NULL COLLATE BINARY` — valid SQLite that
+// github.com/rqlite/sql cannot parse. Used only to name a parse failure.
+func c14CollateAfterNulltest(toks []c14Tok) bool {
+	for i := 1; i < len(toks); i++ {
+		if !c14IsKw(toks[i], "collate") {
+			continue
+		}
+		p := toks[i-1]
+		if c14IsKw(p, "isnull") || c14IsKw(p, "notnull") {
+			return true
+		}
+		if c14IsKw(p, "null") && i >= 2 && (c14IsKw(toks[i-2], "is") || c14IsKw(toks[i-2], "not")) {
+			return true
+		}
+	}
+	return false
+}
+
+// c14NulltestThenOperator recognises a null test (IS NULL, IS NOT NULL, NOT NULL, ISNULL, NOTNULL)
+// immediately followed by a binary operator that binds tighter than IS in SQLite.
+func c14NulltestThenOperator(toks []c14Tok) bool {
+	tight := map[string]bool{"&": true, "|": true, "<<": true, ">>": true, "+": true, "-": true, "*": true, "/": true, "%": true, "||": true,
+		"<": true, "<=": true, ">": true, ">=": true}
+	for i := 1; i < len(toks); i++ {
+		if toks[i].Kind != c14TPunct || !tight[toks[i].Text] {
+			continue
+		}
+		p := toks[i-1]
+		if c14IsKw(p, "isnull") || c14IsKw(p, "notnull") {
+			return true
+		}
+		if c14IsKw(p, "null") && i >= 2 && (c14IsKw(toks[i-2], "is") || c14IsKw(toks[i-2], "not")) {
+			return true
+		}
+	}
+	return false
 }
